@@ -246,7 +246,7 @@ func genRFC3339(t *rapid.T) string {
 		tt = time.Unix(sec, 0).UTC()
 	}
 	s := tt.Format(time.RFC3339)
-	switch rapid.IntRange(0, 7).Draw(t, "rfcvariant") {
+	switch rapid.IntRange(0, 8).Draw(t, "rfcvariant") {
 	case 0: // fractional seconds
 		frac := rapid.SampledFrom([]string{".5", ".000000001", ".999999999", ".0"}).Draw(t, "rfcfrac")
 		if i := strings.IndexAny(s[19:], "Z+-"); i >= 0 {
@@ -257,8 +257,115 @@ func genRFC3339(t *rapid.T) string {
 			strings.Replace(s, "T", " ", 1), strings.ToLower(s), s[:10], s[:19], strings.Replace(s, "-", "/", 2), tt.Format(time.RFC1123), tt.Format(time.RFC822),
 			tt.Format(time.ANSIC), fmt.Sprint(sec), s + " ", " " + s, strings.Replace(s, ":", "", 1), "T" + s,
 		}).Draw(t, "rfcneighbour")
+	case 2: // RFC 3339 shape, one component replaced: out of range (month 13, 30 February, hour 24, second 60, offset +25:00 ...) or the boundary next to it
+		if len(s) >= 20 {
+			comp := rapid.SampledFrom([]struct {
+				at   int
+				vals []string
+			}{
+				{5, []string{"00", "12", "13", "19", "99"}},             // month
+				{8, []string{"00", "28", "29", "30", "31", "32", "99"}}, // day (depends on month and year)
+				{11, []string{"23", "24", "25", "99"}},                  // hour
+				{14, []string{"59", "60", "61", "99"}},                  // minute
+				{17, []string{"59", "60", "61", "99"}},                  // second
+			}).Draw(t, "rfccomp")
+			b := []byte(s)
+			copy(b[comp.at:comp.at+2], rapid.SampledFrom(comp.vals).Draw(t, "rfccompval"))
+			s = string(b)
+		}
+		if rapid.IntRange(0, 3).Draw(t, "rfcoffrange") == 0 {
+			off := rapid.SampledFrom([]string{"+23:59", "-23:59", "+24:00", "+25:00", "-99:00", "+00:60", "+01:75", "+00:99"}).Draw(t, "rfcoff")
+			if i := strings.IndexAny(s[19:], "Z+-"); i >= 0 {
+				s = s[:19+i] + off
+			}
+		}
 	}
 	return s
+}
+
+// ---- language tags ---------------------------------------------------------------------------------
+
+var (
+	langKnown    = []string{"de", "en", "fr", "pt", "zh", "sr", "es", "nl", "ja", "gsw", "und"}
+	langOdd      = []string{"xx", "zz", "qq", "gb", "xyz", "qaa", "iw", "sh", "mo", "abcd", "abcde"}
+	scriptKnown  = []string{"Latn", "Cyrl", "Hant", "Hans", "Arab"}
+	scriptOdd    = []string{"Abcd", "Xxxx", "Zzzz", "Qaaa", "Latm", "Wxyz"}
+	regionKnown  = []string{"CH", "US", "DE", "BR", "TW", "RS", "GB", "419", "001"}
+	regionOdd    = []string{"YY", "XX", "ZZ", "AA", "QM", "UK", "DD", "999", "000", "12"}
+	variantKnown = []string{"1996", "1901", "valencia", "fonipa", "scotland", "oxendict"}
+	variantOdd   = []string{"foobar", "abcde", "1234", "variant1", "12345678", "quux"}
+	extPool      = []string{"u-co-phonebk", "u-nu-latn", "x-private", "a-bbb", "x-a-b", "u-zz-zzzz", "t-en", "u", "x"}
+	badSubtags   = []string{"", "abcdefghi", "d\u00e9", "a b", "*", "1", "toolongsubtagxyz"}
+)
+
+func genSubtag(t *rapid.T, label string, known, odd []string, freeLen [2]int, digits bool) string {
+	switch rapid.IntRange(0, 5).Draw(t, label+":src") {
+	case 0, 1, 2:
+		return rapid.SampledFrom(known).Draw(t, label+":known")
+	case 3:
+		return rapid.SampledFrom(odd).Draw(t, label+":odd")
+	}
+	// free: well-formed by length and alphabet; whether the registry knows it is for the reference to say
+	alphabet := "abcdefghijklmnopqrstuvwxyz"
+	if digits {
+		alphabet += "0123456789"
+	}
+	n := rapid.IntRange(freeLen[0], freeLen[1]).Draw(t, label+":n")
+	b := make([]byte, n)
+	for i := range b {
+		b[i] = alphabet[rapid.IntRange(0, len(alphabet)-1).Draw(t, label+":c")]
+	}
+	return string(b)
+}
+
+// genLocaleTag: a BCP 47 shaped string composed subtag by subtag (language [-script] [-region] [-variant]* [-extension]): every
+// position independently known / well-formed but unknown to the registry / (rarely) malformed, in canonical or odd spelling.
+func genLocaleTag(t *rapid.T) string {
+	parts := []string{genSubtag(t, "lt:lang", langKnown, langOdd, [2]int{2, 3}, false)}
+	if rapid.IntRange(0, 2).Draw(t, "lt:hasscript") == 0 {
+		sc := genSubtag(t, "lt:script", scriptKnown, scriptOdd, [2]int{4, 4}, false)
+		parts = append(parts, strings.ToUpper(sc[:1])+sc[1:])
+	}
+	if rapid.IntRange(0, 2).Draw(t, "lt:hasregion") > 0 {
+		parts = append(parts, strings.ToUpper(genSubtag(t, "lt:region", regionKnown, regionOdd, [2]int{2, 2}, false)))
+	}
+	for i := rapid.SampledFrom([]int{0, 0, 0, 1, 1, 2}).Draw(t, "lt:nvariants"); i > 0; i-- {
+		parts = append(parts, genSubtag(t, "lt:variant", variantKnown, variantOdd, [2]int{5, 8}, true))
+	}
+	if rapid.IntRange(0, 5).Draw(t, "lt:hasext") == 0 {
+		parts = append(parts, rapid.SampledFrom(extPool).Draw(t, "lt:ext"))
+	}
+	if rapid.IntRange(0, 11).Draw(t, "lt:malform") == 0 {
+		i := rapid.IntRange(0, len(parts)).Draw(t, "lt:badat")
+		bad := rapid.SampledFrom(badSubtags).Draw(t, "lt:bad")
+		parts = append(parts[:i], append([]string{bad}, parts[i:]...)...)
+	}
+	sep := "-"
+	if rapid.IntRange(0, 11).Draw(t, "lt:underscore") == 0 {
+		sep = "_"
+	}
+	s := strings.Join(parts, sep)
+	switch rapid.IntRange(0, 11).Draw(t, "lt:case") {
+	case 0:
+		s = strings.ToLower(s)
+	case 1:
+		s = strings.ToUpper(s)
+	}
+	return s
+}
+
+// genLocaleList: 0..4 entries, each a composed tag or a pool tag.
+func genLocaleList(t *rapid.T) []string {
+	n := rapid.IntRange(0, 4).Draw(t, "ll:n")
+	out := make([]string, n)
+	for i := range out {
+		if rapid.Bool().Draw(t, "ll:pool") {
+			out[i] = rapid.SampledFrom(localePool).Draw(t, "ll:tag")
+		} else {
+			out[i] = genLocaleTag(t)
+		}
+	}
+	return out
 }
 
 // formPools: per claim kind, the documented forms and their neighbours as JSON text (also enumerated exhaustively by TestFormsEnumerated).
@@ -270,7 +377,10 @@ var formPools = map[fkind][]string{
 		`1.5`, `-1.5`, `9007199254740993`, `1e19`, `-1e19`, `1e308`, `1e400`, `0.1`, `1e-3`,
 		`"2023-11-14T22:13:20Z"`, `"2023-11-14T23:13:20+01:00"`, `"2023-11-14T22:13:20.5Z"`, `"1969-12-31T23:59:59Z"`, `"1970-01-01T00:00:00Z"`, `"0001-01-01T00:00:00Z"`, `"9999-12-31T23:59:59Z"`,
 		`"2023-11-14 22:13:20Z"`, `"2023-11-14t22:13:20z"`, `"2023-11-14"`, `"2023-11-14T22:13:20"`, `"Tue, 14 Nov 2023 22:13:20 GMT"`,
-		`"1700000000"`, `""`, `"now"`, `true`, `false`, `null`, `[1700000000]`, `{"seconds":1}`, `"0"`, `"NaN"`},
+		`"1700000000"`, `""`, `"now"`, `true`, `false`, `null`, `[1700000000]`, `{"seconds":1}`, `"0"`, `"NaN"`,
+		// RFC 3339 shape with a component out of range, next to the valid boundary values
+		`"2023-02-29T12:00:00Z"`, `"2024-02-29T12:00:00Z"`, `"2023-02-30T00:00:00Z"`, `"2023-13-01T00:00:00Z"`, `"2023-00-10T00:00:00Z"`, `"2023-11-31T22:13:20Z"`, `"2023-11-00T22:13:20Z"`,
+		`"2023-11-14T24:00:00Z"`, `"2023-11-14T23:59:59Z"`, `"2023-11-14T22:60:00Z"`, `"2023-11-14T22:13:60Z"`, `"2023-11-14T22:13:61Z"`, `"2023-11-14T22:13:20+25:00"`, `"2023-11-14T22:13:20+01:75"`, `"2023-11-14T22:13:20-23:59"`},
 	kAud: {`"a"`, `"client-1"`, `""`, `"a b"`, `["a","b"]`, `["client-1"]`, `[]`, `[""]`, `["a","a"]`,
 		`5`, `["a",1]`, `[1]`, `{"a":"b"}`, `null`, `true`, `[["a"]]`, `["a",null]`, `["a",{"b":1}]`, `[true]`, `1.5`, `["a",["b"]]`},
 	kSDA:  {`"openid profile"`, `"openid"`, `"a b c"`, `""`, `"a  b"`, `" a"`, `"a "`, `["a","b"]`, `5`, `null`, `true`, `{}`, `"a\tb"`},
@@ -278,10 +388,14 @@ var formPools = map[fkind][]string{
 	kBool: {`true`, `false`, `"true"`, `"false"`, `"yes"`, `"no"`, `1`, `0`, `"True"`, `"TRUE"`, `"1"`, `"0"`, `null`, `"tru\u0065"`, `[]`, `""`,
 		`"t"`, `"on"`, `[true]`, `{}`, `" true"`, `"true "`, `"false1"`},
 	kLocale: {`"de"`, `"en-US"`, `"fr-CH"`, `"zh-Hant-TW"`, `"es-419"`, `"und"`, `""`, `"zz"`, `"xx-YY"`, `"en_US"`, `"EN-us"`, `"iw"`, `"toolongsubtagxyz"`, `"de-"`,
-		`"-"`, `5`, `null`, `["de"]`, `"i-klingon"`, `"de fr"`, `true`, `{}`, `"en-GB-oed"`, `"sr-Latn"`, `"a"`, `"123"`},
+		`"-"`, `5`, `null`, `["de"]`, `"i-klingon"`, `"de fr"`, `true`, `{}`, `"en-GB-oed"`, `"sr-Latn"`, `"a"`, `"123"`,
+		// well-formed tags with a subtag the registry does not know, alone and next to known subtags; further well-formed shapes; malformed neighbours
+		`"gb"`, `"xx-US"`, `"zz-Latn"`, `"de-Abcd"`, `"de-Abcd-CH"`, `"de-CH-foobar"`, `"de-CH-1996-foobar"`, `"qq-Abcd-YY"`,
+		`"de-1996"`, `"de-Latn-CH-1996-u-co-phonebk"`, `"de-x-private"`, `"und-CH"`, `"de-ZZ"`, `"de-001"`, `"de--CH"`, `"de-CH-"`, `"de-u"`, `"de-abcdefghi"`},
 	kLocales: {`"de fr"`, `"de"`, `"en-US fr-CH pt-BR"`, `"de zz fr"`, `"und de"`, `"de und"`, `"xyzzy-bad- de"`, `"de  fr"`, `" de"`, `""`, `"zz"`, `"de toolongsubtagxyz fr en"`,
 		`["de","fr"]`, `["de"]`, `[]`, `["de","!!","fr"]`, `["zz","de"]`, `["und","de"]`, `["","de"]`, `["de fr"]`, `["de",1]`, `[1]`, `["de",null]`, `[["de"]]`,
-		`5`, `null`, `{}`, `true`, `"iw de"`, `["en_US","EN-us"]`, `"de-"`, `["de-","fr"]`},
+		`5`, `null`, `{}`, `true`, `"iw de"`, `["en_US","EN-us"]`, `"de-"`, `["de-","fr"]`,
+		`"de xx-US fr"`, `"de-Abcd-CH"`, `"de-CH-foobar en"`, `["de-Abcd-CH","fr"]`, `["en","zz-Latn","de--CH","pt-BR"]`, `["xx-US"]`, `"gb de-1996"`},
 	kAddr: {`null`, `"x"`, `5`, `[]`, `{}`, `[{"country":"CH"}]`, `true`, `{"country":"CH","formatted":"a\nb"}`, `{"country":5}`, `{"country":null,"region":"r"}`, `{"Country":"CH"}`, `{"x":1}`},
 	kAct: {`null`, `"x"`, `5`, `[]`, `{}`, `{"sub":"actor"}`, `[{"sub":"actor"}]`, `true`, `{"act":{"act":{"act":{"act":{"sub":"deep"}}}}}`,
 		`{"sub":"a","iss":"i","k":[1,{"x":null}]}`, `{"sub":5}`, `{"act":"x"}`, `{"act":{"sub":"b","c":true},"sub":"a"}`, `{"SUB":"a"}`},
@@ -302,6 +416,38 @@ func genForm(t *rapid.T, k fkind, depth int) string {
 			return q(genRFC3339(t))
 		case 1:
 			return fmt.Sprint(rapid.Int64Range(-(1<<53), 1<<53).Draw(t, "f:timeint"))
+		}
+	case kLocale:
+		if rapid.Bool().Draw(t, "f:localetag") {
+			return q(genLocaleTag(t))
+		}
+	case kLocales:
+		switch rapid.IntRange(0, 3).Draw(t, "f:locales") {
+		case 0:
+			sep := rapid.SampledFrom([]string{" ", " ", " ", "  ", ","}).Draw(t, "f:localessep")
+			return q(strings.Join(genLocaleList(t), sep))
+		case 1:
+			l := genLocaleList(t)
+			elems := make([]string, len(l))
+			for i, e := range l {
+				elems[i] = q(e)
+			}
+			if len(elems) > 0 && rapid.IntRange(0, 9).Draw(t, "f:localesnonstring") == 0 {
+				elems[rapid.IntRange(0, len(elems)-1).Draw(t, "f:localesnonstringat")] = rapid.SampledFrom([]string{"1", "null", "true", `["de"]`, "{}"}).Draw(t, "f:localesnonstringv")
+			}
+			return "[" + strings.Join(elems, ",") + "]"
+		}
+	case kBool, kXBool:
+		if rapid.IntRange(0, 3).Draw(t, "f:boolspell") == 0 {
+			// spellings around the two documented strings: letter case, padding, prefixes
+			w := []byte(rapid.SampledFrom([]string{"true", "false"}).Draw(t, "f:boolword"))
+			for i := range w {
+				if rapid.IntRange(0, 3).Draw(t, "f:boolupper") == 0 {
+					w[i] -= 'a' - 'A'
+				}
+			}
+			s := rapid.SampledFrom([]string{"", "", "", " ", "\t"}).Draw(t, "f:boolpre") + string(w) + rapid.SampledFrom([]string{"", "", "", " ", "s", "\n"}).Draw(t, "f:boolpost")
+			return q(s)
 		}
 	case kAddr:
 		if rapid.IntRange(0, 3).Draw(t, "f:addrobj") > 0 {
